@@ -564,6 +564,10 @@ func (st *tunnelServerStream) readMsgLocked() (data []byte, ok bool, err error) 
 				// stream's context is done; never report a message
 				err = context.Canceled
 			}
+			if msgLen != -1 && err == io.EOF {
+				// stream half-closed normally, but in the middle of a message
+				return nil, false, status.Errorf(codes.InvalidArgument, "client half-closed stream before request message was finished (%d/%d)", len(b), msgLen)
+			}
 			return nil, true, err
 		}
 
